@@ -171,6 +171,37 @@ Theorem C10_repair_keeps_the_rest :
 Proof. exact parse_request_fix_agrees. Qed.
 Print Assumptions C10_repair_keeps_the_rest.
 
+(* (4b) which section the want options are read from.  With the repair of
+   proposed_fix/C10-2 (mk_cfg true: the section of the entity's own type - an
+   IdP's idp section, an attribute authority's aa section): whenever that section
+   sets want_authn_requests_signed or ..._only_with_valid_cert, a handed-over
+   request carries a signature (the last clause of (1) in terms of the
+   CONFIGURATION rather than of what _parse_request read) ... *)
+Theorem C10_own_options_honoured :
+  forall pre etype eps secs slack now mdp md only vc dup k b w d,
+    parse_request pre true (mk_cfg true etype eps secs slack now mdp md only vc dup) k b w = Ok (Some d) ->
+    fst (lookup_opts etype secs) = true \/ snd (lookup_opts etype secs) = true ->
+    root_signed (d_tree d) = true.
+Proof. exact own_options_honoured. Qed.
+Print Assumptions C10_own_options_honoured.
+
+(* ... history: reading them in the idp section whatever the entity is (mk_cfg
+   false), an attribute authority of its own (Server(stype="aa")) whose aa section
+   wants signed requests hands over an unsigned AttributeQuery *)
+Theorem C10_options_before_fix_refuted :
+  exists etype eps secs slack now mdp md only vc dup k b w d,
+    fst (lookup_opts etype secs) = true /\
+    parse_request false true (mk_cfg false etype eps secs slack now mdp md only vc dup) k b w = Ok (Some d) /\
+    root_signed (d_tree d) = false /\
+    parse_request false true (mk_cfg true etype eps secs slack now mdp md only vc dup) k b w = Err (E "IncorrectlySigned").
+Proof.
+  exists CAa, [(CAa, [(s2l "attribute_service", [EP (s2l "https://idp.example.org/aa/soap") (s2l "urn:oasis:names:tc:SAML:2.0:bindings:SOAP")])])],
+         w_aa_secs, 0%Z, 1790000000%Z, true, [(w_sp, [[{| kd_use := Some SIGNING; kd_certs := [5] |}]])], true, None, true,
+         KAttrQ, BSoap, (WSoap (SoapPart w_query)), w_query.
+  exact options_witness.
+Qed.
+Print Assumptions C10_options_before_fix_refuted.
+
 (* (5) truncated / garbled encodings and wrong roots, for every code state *)
 Theorem C10_undecodable_refused :
   forall pre fixd c k b, b <> BUri -> b <> BNone ->
